@@ -139,6 +139,13 @@ def run_r2(ctx, rule):
     for sblk, fa in guards.decision_facts(fn, cwb):
         if fa[0] == "cmp" and fa[1] in ("Gt", "Ge", "Lt", "Le") and mentions(fa, lambda x: x == ("f", ("l", 1), "pos_in_buf")) and mentions(fa, lambda x: x == ("f", ("l", 1), "chunk_size")):
             g = (sblk, fa)
+    # ... and on nothing else: any further condition on the reader's state (the mark, the window length, ..) could
+    # keep the cursor from ever being realigned
+    foreign = set()
+    for sblk, fa in guards.decision_facts(fn, cwb):
+        e = fa[1] if fa[0] == "bool" else fa
+        mentions(e, lambda x: x[0] == "f" and x[1] == ("l", 1) and x[2] not in ("pos_in_buf", "chunk_size", "complete") and not foreign.add(x[2]) and False)
+    rule.check(not foreign, "request_more/realign-unconditional", "compaction depends on the consumed amount only (further reader state in the decision: %s)" % (sorted(foreign) or "none"), fn.loc(cwb))
     rule.check(bool(g), "request_more/realign-guard", "compaction is decided by comparing pos_in_buf with a multiple of chunk_size (%s)" % (guards.show_fact(fn, g[1]) if g else "not found"), fn.loc(cwb))
     # destination 0 and window source
     t = fn.term(cwb)
@@ -279,7 +286,7 @@ def run_r3(ctx, rule):
 def run(ctx):
     r1 = ctx.rule("C10-R1", "every growth of a buffer that outlives the call is dominated by a clear() of the same buffer (streaming entry points)", floor=9)
     run_r1(ctx, r1)
-    r2 = ctx.rule("C10-R2", "compaction in request_more is decided on live operands, moves the window to 0, and the buffer grows only on demand", floor=4)
+    r2 = ctx.rule("C10-R2", "compaction in request_more is decided on live operands, moves the window to 0, and the buffer grows only on demand", floor=5)
     run_r2(ctx, r2)
     r3 = ctx.rule("C10-R3", "look-ahead stays within one line: no second line end is looked at before the cursor moved past the first", floor=60)
     run_r3(ctx, r3)
